@@ -139,15 +139,7 @@ pub fn parse_logfmt(text: &str) -> Result<Vec<Ev>, String> {
         if !["recv", "send", "drop"].contains(&verb.as_str()) {
             return Err(format!("unknown verb {:?} in line {:?}", verb, line));
         }
-        let allowed: &[&str] = match layer.as_str() {
-            "arp" => &["ts", "proto", "verb", "mac_src", "mac_dst", "ip_src", "ip_dst", "op"],
-            "eth" => &["ts", "proto", "verb", "mac_src", "mac_dst", "ip_src", "ip_dst", "transport", "port_src", "port_dst", "eth_type"],
-            "ipv4" | "ipv6" => &["ts", "proto", "verb", "mac_src", "mac_dst", "ip_src", "ip_dst", "transport", "port_src", "port_dst", "next_proto"],
-            "icmpv4" => &["ts", "proto", "verb", "mac_src", "mac_dst", "ip_src", "ip_dst", "transport", "port_src", "port_dst", "icmp_type", "icmp_code"],
-            "icmpv6" => &["ts", "proto", "verb", "mac_src", "mac_dst", "ip_src", "ip_dst", "transport", "port_src", "port_dst", "icmpv6_type", "icmpv6_code"],
-            "tcp" => &["ts", "proto", "verb", "mac_src", "mac_dst", "ip_src", "ip_dst", "transport", "port_src", "port_dst", "flags", "seq", "ack"],
-            _ => &["ts", "proto", "verb", "mac_src", "mac_dst", "ip_src", "ip_dst", "transport", "port_src", "port_dst"],
-        };
+        // further keys are the format's business; the known ones must be there, once
         let required: &[&str] = match layer.as_str() {
             "arp" => &["mac_src", "mac_dst", "ip_src", "ip_dst", "op"],
             "eth" => &["mac_src", "mac_dst", "eth_type"],
@@ -157,11 +149,6 @@ pub fn parse_logfmt(text: &str) -> Result<Vec<Ev>, String> {
             "tcp" => &["ip_src", "ip_dst", "port_src", "port_dst", "flags", "seq", "ack"],
             _ => &["ip_src", "ip_dst", "port_src", "port_dst"],
         };
-        for (k, _) in &kv {
-            if !allowed.contains(&k.as_str()) {
-                return Err(format!("unexpected key {:?} in {} line {:?}", k, layer, line));
-            }
-        }
         for k in required {
             if get(k).is_none() {
                 return Err(format!("{} {} line lacks {}=: {:?}", layer, verb, k, line));
